@@ -1,12 +1,20 @@
 (* C16: the member functions of JUnitTestOutput that collect the results of a group and write its file, as translated from source on
    every run (gen/Gen_HeapC16.v), run on a heap that represents a model state (C16_HeapRep.v), do what the hand-written model
-   (C16_Model.v: junit_step, write_group) says.
+   (C16_Model.v: junit_step, write_group with esc := Esc) says.
    Part 1 (concrete): each function on a heap holding a concrete state k (cjunit_at) returns FOk, the heap holds the updated concrete
-   state, the events appended are an explicit function of k, every block outside the structure is unchanged.
-   Part 2 (rendering): the events of writeTestGroupToFile read as a file (files_of) are the bytes group_file, a concatenation
-   following the writers, for arbitrary execution times; with all times 0 they are the model's write_group Esc.
-   Part 3 (model): the same statements for junit_at / junit_at_o and junit_step.
-   Part 4: examples (vm_compute) on a concrete heap, including the counterexamples reported in the comments. *)
+   state, the events appended are an explicit function of k (started_node, reset_events, ev_header / ev_summary / ev_props /
+   ev_failure / ev_case / ev_cases / ev_ending / ev_group), every block outside the structure is unchanged.  One lemma per
+   translated function; the two loops by induction on the node list (fuel: length of the list < fuel).
+   Part 2 (rendering, no hypothesis): the events of writeTestGroupToFile read as a file (files_of) are the bytes group_file = the
+   model's printer applied to a tree built like the model's but with the numbers and times the code prints (suite_ptree_c).
+   Part 3 (model): with all times 0, the model's time string and numbers below 2^31 that tree is the model's suite_ptree Esc, so the
+   file is write_group Esc; the callbacks are junit_step on junit_at / junit_at_o.  te is the Section variable text_empty of the
+   translation (isEmpty()), assumed to answer for txt; txt 0 = [].
+   Part 4: examples (vm_compute) on a concrete heap, including the counterexamples reported in the comments.
+   FINDINGS stated where they matter: (a) a started, not yet ended node breaks the cumulative reading of checkCount_ (junit_at_o true,
+   ce_open_node); (b) resetTestGroupResult emits `delete` of the null failure_ of every node without failure (reset_events,
+   reset_events_deleted) and does not reset totalCheckCount_; (c) the model prints time 0.000: the equality with write_group needs
+   groupExecTime_ = 0 and every execTime_ = 0 (ex_times shows the general rendering). *)
 From Coq Require Import ZArith NArith Bool List Lia.
 From Coq Require String Ascii.
 From CppUVerif Require Import lib.Str C16_Events C16_Model.
@@ -663,3 +671,698 @@ Proof.
   exists h3. split; [rewrite <- app_assoc; reflexivity|]. split; [exact Hcj3|]. split; [lia|].
   intros b Hb. rewrite (F3 b Hb), (F2 b Hb). exact (F b Hb).
 Qed.
+
+(* ------------------------------------------------------------------ Part 1 in existential form *)
+Theorem test_started fuel0 t0 times w willruns timestr h ob ib bs k tb t evs nx :
+  cjunit_at h ob ib bs k -> hblock h tb = shell_cells t -> ~ In tb (jblocks ob ib bs (k_nodes k)) ->
+  exists h', src_junit_printCurrentTestStarted fuel0 h evs nx (t0 :: times) (w :: willruns) timestr (HPtr ob 0) (HPtr tb 0) =
+             FOk (tt, h', evs ++ [JNew (HPtr (length h) 0)], nx, times, willruns, timestr) /\
+    cjunit_at h' ob ib (bs ++ [length h])
+      (k_with k (k_nodes k ++ [started_node t w]) (cw 64 false (k_tc k + 1)) (k_fc k) (k_total k) t0 (k_gexec k) (sh_group t)) /\
+    length h' = S (length h) /\
+    (forall b, (b < length h)%nat -> ~ In b (jblocks ob ib bs (k_nodes k)) -> hblock h' b = hblock h b).
+Proof. intros H1 H2 H3. apply fpost_tuple. exact (started_m fuel0 t0 times w willruns timestr h ob ib bs k tb t evs nx H1 H2 H3). Qed.
+Theorem test_ended fuel0 times willruns timestr h ob ib bs k cs c rb r evs nx :
+  cjunit_at h ob ib bs k -> k_nodes k = cs ++ [c] -> hblock h rb = tr_cells r -> ~ In rb (jblocks ob ib bs (k_nodes k)) ->
+  exists h', src_junit_printCurrentTestEnded fuel0 h evs nx times willruns timestr (HPtr ob 0) (HPtr rb 0) =
+             FOk (tt, h', evs, nx, times, willruns, timestr) /\
+    cjunit_at h' ob ib bs (k_with k (cs ++ [c_with c (tr_test_ms r) (c_fail c) (tr_checks r)])
+                             (k_tc k) (k_fc k) (k_total k) (k_start k) (k_gexec k) (k_group k)) /\
+    length h' = length h /\ (forall b, ~ In b (jblocks ob ib bs (k_nodes k)) -> hblock h' b = hblock h b).
+Proof. intros H1 H2 H3 H4. apply fpost_tuple. exact (ended_m fuel0 times willruns timestr h ob ib bs k cs c rb r evs nx H1 H2 H3 H4). Qed.
+Theorem failure_first fuel0 times willruns timestr h ob ib bs k cs c fb0 f evs nx :
+  cjunit_at h ob ib bs k -> k_nodes k = cs ++ [c] -> c_fail c = None ->
+  hblock h fb0 = fail_cells f -> ~ In fb0 (jblocks ob ib bs (k_nodes k)) ->
+  exists h', src_junit_printFailure fuel0 h evs nx times willruns timestr (HPtr ob 0) (HPtr fb0 0) =
+             FOk (tt, h', evs ++ [JNew (HPtr (length h) 0)], nx, times, willruns, timestr) /\
+    cjunit_at h' ob ib bs (k_with k (cs ++ [c_with c (c_exec c) (Some (length h, f)) (c_cc c)])
+                             (k_tc k) (cw 64 false (k_fc k + 1)) (k_total k) (k_start k) (k_gexec k) (k_group k)) /\
+    length h' = S (length h) /\ hblock h' (length h) = fail_cells f /\
+    (forall b, (b < length h)%nat -> ~ In b (jblocks ob ib bs (k_nodes k)) -> hblock h' b = hblock h b).
+Proof.
+  intros H1 H2 H3 H4 H5. apply fpost_tuple. exact (failure_first_m fuel0 times willruns timestr h ob ib bs k cs c fb0 f evs nx H1 H2 H3 H4 H5).
+Qed.
+Theorem reset_group fuel0 times willruns timestr h ob ib bs k evs nx :
+  cjunit_at h ob ib bs k -> (length (k_nodes k) < fuel0)%nat ->
+  exists h', src_junit_resetTestGroupResult fuel0 h evs nx times willruns timestr (HPtr ob 0) =
+             FOk (tt, h', evs ++ reset_events bs (k_nodes k), nx, times, willruns, timestr) /\
+    cjunit_at h' ob ib [] (k_with k [] 0 0 (k_total k) (k_start k) (k_gexec k) 0) /\
+    length h' = length h /\ (forall b, b <> ib -> hblock h' b = hblock h b).
+Proof. intros H1 H2. apply fpost_tuple. exact (reset_m fuel0 times willruns timestr h ob ib bs k evs nx H1 H2). Qed.
+
+(* ================================================================== Part 2: the events read as a file *)
+(* the file of a group as a tree in the model's vocabulary (C16_Model.ptree), for arbitrary execution times and numbers: the
+   numbers are the (int) casts the code makes, "%d.%03d" of s and ms is sdec s ++ "." ++ sdec03 ms *)
+Definition time_attr (e : Z) : bytes :=
+  sdec (cw 32 true (cw 64 false (c_div e 1000))) ++ [46%N] ++ sdec03 (cw 32 true (cw 64 false (c_rem e 1000))).
+Definition fail_attrs_c (txt : Z -> bytes) (f : cfail) : list (bytes * list seg) :=
+  [(L_message, [Esc (txt (cf_file f)); Raw [58%N]; Raw (sdec (cw 32 true (cf_line f))); Raw [58%N; 32%N]; Esc (txt (cf_msg f))]);
+   (L_type, [Raw L_AssertionFailedError])].
+Definition failure_ptree_c (txt : Z -> bytes) (f : cfail) : ptree := PElem L_failure (fail_attrs_c txt f) false [nl].
+Definition case_attrs_c (txt : Z -> bytes) (te : Z -> Z) (pkg group total : Z) (c : cnode) : list (bytes * list seg) :=
+  [(L_classname, [Esc (txt pkg); Raw (B (if z2b (te pkg) then ""%string else "."%string)); Esc (txt group)]);
+   (L_name, [Esc (txt (c_name c))]); (L_assertions, [Raw (sdec (cw 32 true (cw 64 false (c_cc c - total))))]);
+   (L_time, [Raw (time_attr (c_exec c))]); (L_file, [Esc (txt (c_file c))]); (L_line, [Raw (sdec (cw 32 true (c_line c)))])].
+Definition case_ptrees_c (txt : Z -> bytes) (te : Z -> Z) (pkg group total : Z) (c : cnode) : list ptree :=
+  [PElem L_testcase (case_attrs_c txt te pkg group total c) false
+     (nl :: match c_fail c with
+            | Some (_, f) => [failure_ptree_c txt f; nl]
+            | None => if c_ign c then [PElem L_skipped [] true []; nl] else []
+            end);
+   nl].
+Fixpoint cases_ptrees_c (txt : Z -> bytes) (te : Z -> Z) (pkg group total : Z) (cs : list cnode) : list ptree :=
+  match cs with
+  | [] => []
+  | c :: r => case_ptrees_c txt te pkg group total c ++ cases_ptrees_c txt te pkg group (c_cc c) r
+  end.
+Definition suite_attrs_c (txt : Z -> bytes) (k : cstate) (timestr : Z) : list (bytes * list seg) :=
+  [(L_errors, [Raw [48%N]]); (L_failures, [Raw (sdec (cw 32 true (k_fc k)))]); (L_hostname, [Raw L_localhost]);
+   (L_name, [Esc (txt (k_group k))]); (L_tests, [Raw (sdec (cw 32 true (k_tc k)))]); (L_time, [Raw (time_attr (k_gexec k))]);
+   (L_timestamp, [Esc (txt timestr)])].
+Definition suite_ptree_c (txt : Z -> bytes) (te : Z -> Z) (k : cstate) (timestr : Z) : ptree :=
+  PElem L_testsuite (suite_attrs_c txt k timestr) false
+    ([nl; PElem L_properties [] false [nl]; nl] ++
+     cases_ptrees_c txt te (k_pkg k) (k_group k) (k_total k) (k_nodes k) ++
+     [PElem L_system_out [] false [PText [Esc (txt (k_out k))]]; nl; PElem L_system_err [] false []; nl]).
+Definition group_file (txt : Z -> bytes) (te : Z -> Z) (k : cstate) (timestr : Z) : bytes :=
+  L_xml_header ++ [10%N] ++ print encodeXmlText (suite_ptree_c txt te k timestr) ++ [10%N].
+
+(* the three format strings, cut into pieces once *)
+Lemma parse_suite : fmt_parse (B fmt_suite) 0 = ltac:(let r := eval vm_compute in (fmt_parse (B fmt_suite) 0) in exact r).
+Proof. vm_compute. reflexivity. Qed.
+Lemma parse_case : fmt_parse (B fmt_case) 0 = ltac:(let r := eval vm_compute in (fmt_parse (B fmt_case) 0) in exact r).
+Proof. vm_compute. reflexivity. Qed.
+Lemma parse_fail : fmt_parse (B fmt_fail) 0 = ltac:(let r := eval vm_compute in (fmt_parse (B fmt_fail) 0) in exact r).
+Proof. vm_compute. reflexivity. Qed.
+
+Ltac gen_flat := match goal with |- context [flat_map (attr_print encodeXmlText) ?l] => generalize (flat_map (attr_print encodeXmlText) l) end.
+
+Lemma render_suite_tag txt d a g b s ms ts :
+  fmt_render txt d fmt_suite [JNum a; JEnc g; JNum b; JNum s; JNum ms; JEnc ts] =
+  [60%N] ++ L_testsuite ++ flat_map (attr_print encodeXmlText)
+     [(L_errors, [Raw [48%N]]); (L_failures, [Raw (sdec a)]); (L_hostname, [Raw L_localhost]); (L_name, [Esc (txt g)]);
+      (L_tests, [Raw (sdec b)]); (L_time, [Raw (sdec s ++ [46%N] ++ sdec03 ms)]); (L_timestamp, [Esc (txt ts)])] ++ [62%N; 10%N].
+Proof.
+  unfold fmt_render. rewrite parse_suite. cbn [fmt_fill arg_s arg_d arg_d03].
+  cbn [flat_map]. unfold attr_print, segs_print. cbn [flat_map seg_print fst snd].
+  generalize (sdec a) (encodeXmlText (txt g)) (sdec b) (sdec s) (sdec03 ms) (encodeXmlText (txt ts)). intros x1 x2 x3 x4 x5 x6.
+  repeat rewrite <- app_assoc. cbn. reflexivity.
+Qed.
+Lemma render_case_tag txt d p dot g nm a s ms fl ln :
+  fmt_render txt d fmt_case [JEnc p; JLit dot; JEnc g; JEnc nm; JNum a; JNum s; JNum ms; JEnc fl; JNum ln] =
+  [60%N] ++ L_testcase ++ flat_map (attr_print encodeXmlText)
+     [(L_classname, [Esc (txt p); Raw (B dot); Esc (txt g)]); (L_name, [Esc (txt nm)]); (L_assertions, [Raw (sdec a)]);
+      (L_time, [Raw (sdec s ++ [46%N] ++ sdec03 ms)]); (L_file, [Esc (txt fl)]); (L_line, [Raw (sdec ln)])] ++ [62%N; 10%N].
+Proof.
+  unfold fmt_render. rewrite parse_case. cbn [fmt_fill arg_s arg_d arg_d03].
+  cbn [flat_map]. unfold attr_print, segs_print. cbn [flat_map seg_print fst snd].
+  generalize (encodeXmlText (txt p)) (B dot) (encodeXmlText (txt g)) (encodeXmlText (txt nm)) (sdec a) (sdec s) (sdec03 ms)
+    (encodeXmlText (txt fl)) (sdec ln). intros x1 x2 x3 x4 x5 x6 x7 x8 x9.
+  repeat rewrite <- app_assoc. cbn. reflexivity.
+Qed.
+Lemma render_fail_tag txt d f l m :
+  fmt_render txt d fmt_fail [JEnc f; JNum l; JEnc m] =
+  [60%N] ++ L_failure ++ flat_map (attr_print encodeXmlText)
+     [(L_message, [Esc (txt f); Raw [58%N]; Raw (sdec l); Raw [58%N; 32%N]; Esc (txt m)]); (L_type, [Raw L_AssertionFailedError])] ++
+  [62%N; 10%N].
+Proof.
+  unfold fmt_render. rewrite parse_fail. cbn [fmt_fill arg_s arg_d arg_d03].
+  cbn [flat_map]. unfold attr_print, segs_print. cbn [flat_map seg_print fst snd].
+  generalize (encodeXmlText (txt f)) (sdec l) (encodeXmlText (txt m)). intros x1 x2 x3.
+  repeat rewrite <- app_assoc. cbn. reflexivity.
+Qed.
+
+(* reading events while a file is open *)
+Definition fst_open (d : list (Z * bytes)) (g : Z) (acc : bytes) (dn : list (Z * bytes)) : fstate :=
+  {| f_defs := d; f_cur := Some (g, acc); f_done := dn |}.
+Lemma lookup_same id r d : lookup id ((id, r) :: d) = r.
+Proof. unfold lookup. cbn [find fst]. rewrite Z.eqb_refl. reflexivity. Qed.
+Lemma frun_cons txt s e r : frun txt s (e :: r) = frun txt (fstep txt s e) r. Proof. reflexivity. Qed.
+Lemma frun_fw txt d g acc dn id fmt args rest :
+  frun txt (fst_open d g acc dn) (JFormat id fmt args :: JWrite (JTxt id) :: rest) =
+  frun txt (fst_open ((id, fmt_render txt d fmt args) :: d) g (acc ++ fmt_render txt d fmt args) dn) rest.
+Proof. rewrite !frun_cons. cbn [fstep fst_open f_defs f_cur f_done arg_s]. rewrite lookup_same. reflexivity. Qed.
+Lemma frun_wl txt d g acc dn s rest :
+  frun txt (fst_open d g acc dn) (JWrite (JLit s) :: rest) = frun txt (fst_open d g (acc ++ B s) dn) rest.
+Proof. reflexivity. Qed.
+Lemma frun_we txt d g acc dn id rest :
+  frun txt (fst_open d g acc dn) (JWrite (JEnc id) :: rest) = frun txt (fst_open d g (acc ++ encodeXmlText (txt id)) dn) rest.
+Proof. reflexivity. Qed.
+Lemma frun_nil txt s : frun txt s [] = s. Proof. reflexivity. Qed.
+
+Lemma print_elem enc name attrs kids :
+  print enc (PElem name attrs false kids) =
+  [60%N] ++ name ++ flat_map (attr_print enc) attrs ++ [62%N] ++ flat_map (print enc) kids ++ [60%N; 47%N] ++ name ++ [62%N].
+Proof. reflexivity. Qed.
+
+Lemma fst_open_eq d g a a' dn : a = a' -> exists d', fst_open d g a dn = fst_open d' g a' dn.
+Proof. intros ->. exists d. reflexivity. Qed.
+
+Lemma render_case_tag' txt te d pkg group total c :
+  fmt_render txt d fmt_case
+     [JEnc pkg; JLit (if z2b (te pkg) then ""%string else "."%string); JEnc group; JEnc (c_name c);
+      JNum (cw 32 true (cw 64 false (c_cc c - total)));
+      JNum (cw 32 true (cw 64 false (c_div (c_exec c) 1000))); JNum (cw 32 true (cw 64 false (c_rem (c_exec c) 1000)));
+      JEnc (c_file c); JNum (cw 32 true (c_line c))] =
+  [60%N] ++ L_testcase ++ flat_map (attr_print encodeXmlText) (case_attrs_c txt te pkg group total c) ++ [62%N; 10%N].
+Proof. apply render_case_tag. Qed.
+Lemma render_fail_tag' txt d f :
+  fmt_render txt d fmt_fail [JEnc (cf_file f); JNum (cw 32 true (cf_line f)); JEnc (cf_msg f)] =
+  [60%N] ++ L_failure ++ flat_map (attr_print encodeXmlText) (fail_attrs_c txt f) ++ [62%N; 10%N].
+Proof. apply render_fail_tag. Qed.
+Lemma render_suite_tag' txt d k timestr :
+  fmt_render txt d fmt_suite
+     [JNum (cw 32 true (k_fc k)); JEnc (k_group k); JNum (cw 32 true (k_tc k));
+      JNum (cw 32 true (cw 64 false (c_div (k_gexec k) 1000))); JNum (cw 32 true (cw 64 false (c_rem (k_gexec k) 1000)));
+      JEnc timestr] =
+  [60%N] ++ L_testsuite ++ flat_map (attr_print encodeXmlText) (suite_attrs_c txt k timestr) ++ [62%N; 10%N].
+Proof. apply render_suite_tag. Qed.
+
+Lemma fm_print_cons enc p l : flat_map (print enc) (p :: l) = print enc p ++ flat_map (print enc) l. Proof. reflexivity. Qed.
+Lemma fm_print_nil enc : flat_map (print enc) [] = []. Proof. reflexivity. Qed.
+Lemma print_nl enc : print enc nl = [10%N]. Proof. reflexivity. Qed.
+Lemma print_text_esc enc s : print enc (PText [Esc s]) = enc s. Proof. cbn. apply app_nil_r. Qed.
+Lemma print_skipped enc : print enc (PElem L_skipped [] true []) = [60%N] ++ L_skipped ++ [32%N; 47%N; 62%N]. Proof. reflexivity. Qed.
+
+Lemma frun_case txt te pkg group total nx c d g acc dn :
+  exists d', frun txt (fst_open d g acc dn) (ev_case te pkg group total nx c) =
+             fst_open d' g (acc ++ flat_map (print encodeXmlText) (case_ptrees_c txt te pkg group total c)) dn.
+Proof.
+  unfold ev_case, case_ptrees_c.
+  destruct (c_fail c) as [[fb f]|]; [|destruct (c_ign c)]; cbn [app ev_failure]; rewrite ?frun_fw, ?frun_wl, ?frun_nil;
+    apply fst_open_eq; rewrite ?render_case_tag', ?render_fail_tag'; unfold failure_ptree_c;
+    rewrite ?fm_print_cons, ?fm_print_nil, ?print_elem, ?fm_print_cons, ?fm_print_nil, ?print_elem, ?fm_print_cons, ?fm_print_nil,
+      ?print_nl, ?print_skipped;
+    generalize (flat_map (attr_print encodeXmlText) (case_attrs_c txt te pkg group total c)); intro X1.
+  - generalize (flat_map (attr_print encodeXmlText) (fail_attrs_c txt f)); intro X2. generalize acc. clear. intro acc.
+    repeat rewrite <- app_assoc. vm_compute. reflexivity.
+  - generalize acc. clear. intro acc. repeat rewrite <- app_assoc. vm_compute. reflexivity.
+  - generalize acc. clear. intro acc. repeat rewrite <- app_assoc. vm_compute. reflexivity.
+Qed.
+
+Lemma frun_cases txt te pkg group : forall cs total nx d g acc dn,
+  exists d', frun txt (fst_open d g acc dn) (ev_cases te pkg group total nx cs) =
+             fst_open d' g (acc ++ flat_map (print encodeXmlText) (cases_ptrees_c txt te pkg group total cs)) dn.
+Proof.
+  induction cs as [|c cs IH]; intros total nx d g acc dn.
+  - exists d. cbn [ev_cases cases_ptrees_c flat_map]. rewrite app_nil_r. reflexivity.
+  - cbn [ev_cases cases_ptrees_c]. rewrite frun_app. destruct (frun_case txt te pkg group total nx c d g acc dn) as [d1 E1]. rewrite E1.
+    destruct (IH (c_cc c) (case_nx nx c) d1 g (acc ++ flat_map (print encodeXmlText) (case_ptrees_c txt te pkg group total c)) dn)
+      as [d2 E2].
+    rewrite E2. exists d2. rewrite flat_map_app, app_assoc. reflexivity.
+Qed.
+
+(* the events of writeTestGroupToFile, whatever was read before: one more file, named by the group id, holding group_file *)
+Theorem frun_group txt te k timestr nx s :
+  exists d', frun txt s (ev_group te k timestr nx) =
+             {| f_defs := d'; f_cur := None; f_done := (k_group k, group_file txt te k timestr) :: f_done s |}.
+Proof.
+  unfold ev_group, ev_header, ev_summary, ev_props, ev_ending. cbn [app]. rewrite frun_cons. cbn [fstep].
+  change {| f_defs := f_defs s; f_cur := Some (k_group k, []); f_done := f_done s |} with (fst_open (f_defs s) (k_group k) [] (f_done s)).
+  rewrite frun_wl, frun_fw, !frun_wl, frun_app.
+  destruct (frun_cases txt te (k_pkg k) (k_group k) (k_nodes k) (k_total k) (nx + 1)
+              ((nx, fmt_render txt (f_defs s) fmt_suite
+                      [JNum (cw 32 true (k_fc k)); JEnc (k_group k); JNum (cw 32 true (k_tc k));
+                       JNum (cw 32 true (cw 64 false (c_div (k_gexec k) 1000))); JNum (cw 32 true (cw 64 false (c_rem (k_gexec k) 1000)));
+                       JEnc timestr]) :: f_defs s) (k_group k)
+              (((([] ++ B s_xml) ++ fmt_render txt (f_defs s) fmt_suite
+                      [JNum (cw 32 true (k_fc k)); JEnc (k_group k); JNum (cw 32 true (k_tc k));
+                       JNum (cw 32 true (cw 64 false (c_div (k_gexec k) 1000))); JNum (cw 32 true (cw 64 false (c_rem (k_gexec k) 1000)));
+                       JEnc timestr]) ++ B (NL "<properties>"%string)) ++ B (NL "</properties>"%string)) (f_done s)) as [d1 E1].
+  rewrite E1. cbn [app]. rewrite frun_wl, frun_we, !frun_wl. rewrite frun_cons, frun_nil. cbn [fstep fst_open f_cur f_defs f_done].
+  exists d1. f_equal. f_equal. f_equal. rewrite render_suite_tag'. unfold group_file, suite_ptree_c.
+  rewrite print_elem, !flat_map_app. rewrite !fm_print_cons, !fm_print_nil, !print_elem, !fm_print_cons, !fm_print_nil, !print_nl, print_text_esc.
+  generalize (flat_map (attr_print encodeXmlText) (suite_attrs_c txt k timestr))
+    (flat_map (print encodeXmlText) (cases_ptrees_c txt te (k_pkg k) (k_group k) (k_total k) (k_nodes k))) (encodeXmlText (txt (k_out k))).
+  intros X1 X2 X3. clear. do 3 (cbn; repeat rewrite <- app_assoc). reflexivity.
+Qed.
+
+Lemma frun_reset_events txt s bs cs : frun txt s (reset_events bs cs) = s.
+Proof.
+  unfold reset_events. revert s cs. induction bs as [|b bs IH]; intros s [|c cs]; try reflexivity.
+  cbn [combine flat_map app]. rewrite !frun_cons. cbn [fstep]. apply IH.
+Qed.
+
+Theorem files_of_group txt te k timestr nx evs :
+  files_of txt (evs ++ ev_group te k timestr nx) = files_of txt evs ++ [(k_group k, group_file txt te k timestr)].
+Proof.
+  unfold files_of. rewrite frun_app. destruct (frun_group txt te k timestr nx (frun txt (f0) evs)) as [d' E]. rewrite E.
+  cbn [f_done rev]. reflexivity.
+Qed.
+Theorem files_of_group_reset txt te k timestr nx evs bs cs :
+  files_of txt (evs ++ ev_group te k timestr nx ++ reset_events bs cs) = files_of txt evs ++ [(k_group k, group_file txt te k timestr)].
+Proof.
+  rewrite app_assoc. unfold files_of at 1. rewrite frun_app, frun_reset_events. apply files_of_group.
+Qed.
+
+(* ================================================================== Part 3: the model *)
+(* numbers that pass the (int) casts unchanged *)
+Lemma cw32_N n : (n < 2 ^ 31)%N -> cw 32 true (Z.of_N n) = Z.of_N n.
+Proof.
+  intro H. apply cw_s_small; [lia|]. change (2 ^ (32 - 1)) with 2147483648. change (2 ^ 31)%N with 2147483648%N in H. lia.
+Qed.
+Lemma cw64_N n : (n < 2 ^ 31)%N -> cw 64 false (Z.of_N n) = Z.of_N n.
+Proof.
+  intro H. apply cw_u_small. change (2 ^ 64) with 18446744073709551616. change (2 ^ 31)%N with 2147483648%N in H. lia.
+Qed.
+Lemma sdec_cw32 n : (n < 2 ^ 31)%N -> sdec (cw 32 true (Z.of_N n)) = dec n.
+Proof. intro H. rewrite (cw32_N n H). apply sdec_of_N. Qed.
+(* the time attribute: "%d.%03d" of e / 1000 and e % 1000; the model's "0.000" is the instance e = 0 *)
+Lemma time_attr_small e : 0 <= e < 1000 * 2 ^ 31 -> time_attr e = time_render e.
+Proof.
+  intro H. unfold time_attr, time_render, c_div, c_rem. rewrite Z.quot_div_nonneg, Z.rem_mod_nonneg by lia.
+  assert (H1 : 0 <= e / 1000 < 2 ^ 31). { split; [apply Z.div_pos; lia | apply Z.div_lt_upper_bound; lia]. }
+  assert (H2 : 0 <= e mod 1000 < 1000) by (apply Z.mod_pos_bound; lia).
+  rewrite (cw_u_small 64 (e / 1000)) by (change (2 ^ 64) with 18446744073709551616; change (2 ^ 31) with 2147483648 in H1; lia).
+  rewrite (cw_u_small 64 (e mod 1000)) by (change (2 ^ 64) with 18446744073709551616; lia).
+  rewrite !cw_s_small by (try lia; change (2 ^ (32 - 1)) with 2147483648; change (2 ^ 31) with 2147483648 in H1; lia). reflexivity.
+Qed.
+Lemma time_attr_zero : time_attr 0 = L_zero_time. Proof. reflexivity. Qed.
+
+(* what the theorems about the written file assume of a model state: the numbers printed through (int) / %d are below 2^31 *)
+Definition node_small (n : jnode) : Prop :=
+  (n_checks n < 2 ^ 31)%N /\ (n_line n < 2 ^ 31)%N /\ match n_failure n with Some (_, l, _) => (l < 2 ^ 31)%N | None => True end.
+Definition state_small (st : jstate) : Prop :=
+  (j_failureCount st < 2 ^ 31)%N /\ (j_testCount st < 2 ^ 31)%N /\ Forall node_small (j_nodes st).
+
+Section Model.
+  Variable txt : Z -> bytes.
+  Variable te : Z -> Z.
+  Hypothesis txt0 : txt 0 = [].
+  Hypothesis Hte : forall id, te id = b2z (match txt id with [] => true | _ => false end).
+
+  Lemma dot_lit id : B (if z2b (te id) then ""%string else "."%string) = match txt id with [] => [] | _ => [46%N] end.
+  Proof. rewrite Hte. destruct (txt id); reflexivity. Qed.
+
+  Lemma failure_tree f file line msg : fail_rel txt (Some f) (Some (file, line, msg)) -> (line < 2 ^ 31)%N ->
+    failure_ptree_c txt (snd f) = failure_ptree Esc (file, line, msg).
+  Proof.
+    destruct f as [fb f]. cbn [fail_rel snd]. intros [H1 [H2 H3]] Hl. unfold failure_ptree_c, fail_attrs_c, failure_ptree.
+    rewrite H1, H2, H3, (sdec_cw32 line Hl). reflexivity.
+  Qed.
+
+  Lemma case_tree pkg group total c n : node_rel txt c n -> c_cc c = total + Z.of_N (n_checks n) -> c_exec c = 0 -> node_small n ->
+    case_ptrees_c txt te pkg group total c = testcase_ptrees Esc (txt pkg) (txt group) n.
+  Proof.
+    intros [H1 [H2 [H3 [H4 H5]]]] Hcc Hex [S1 [S2 S3]]. unfold case_ptrees_c, case_attrs_c, testcase_ptrees.
+    rewrite dot_lit, H1, H2, H3, H4, Hex, time_attr_zero, (sdec_cw32 _ S2).
+    replace (c_cc c - total) with (Z.of_N (n_checks n)) by lia. rewrite (cw64_N _ S1), (sdec_cw32 _ S1).
+    f_equal. f_equal. f_equal.
+    destruct (c_fail c) as [[fb f]|], (n_failure n) as [[[file line] msg]|]; cbn [fail_rel] in H5; try contradiction; [|reflexivity].
+    rewrite <- (failure_tree (fb, f) file line msg H5 S3). reflexivity.
+  Qed.
+
+  Lemma cases_tree pkg group : forall cs total ns, nodes_rel txt total cs ns -> Forall (fun c => c_exec c = 0) cs -> Forall node_small ns ->
+    cases_ptrees_c txt te pkg group total cs = flat_map (testcase_ptrees Esc (txt pkg) (txt group)) ns.
+  Proof.
+    induction cs as [|c cs IH]; intros total [|n ns] Hr He Hs; cbn [nodes_rel] in Hr; try contradiction; [reflexivity|].
+    destruct Hr as [R1 [R2 R3]]. inversion He as [|? ? E1 E2]; subst. inversion Hs as [|? ? S1 S2]; subst.
+    cbn [cases_ptrees_c flat_map]. rewrite (case_tree pkg group total c n R1 R2 E1 S1), (IH _ _ R3 E2 S2). reflexivity.
+  Qed.
+
+  (* the tree of the file written = the model's, when all times are 0 and the time string is the model's *)
+  Theorem suite_tree k st total timestr :
+    state_rel txt false k st total -> state_small st -> txt timestr = L_time_string ->
+    k_gexec k = 0 -> Forall (fun c => c_exec c = 0) (k_nodes k) ->
+    suite_ptree_c txt te k timestr = suite_ptree Esc (j_pkg st) st.
+  Proof.
+    intros [R1 [R2 [R3 [R4 [R5 [R6 R7]]]]]] [S1 [S2 S3]] Hts Hg He. unfold suite_ptree_c, suite_attrs_c, suite_ptree.
+    rewrite R1, R2, R3, R6, Hts, Hg, time_attr_zero, (sdec_cw32 _ S1), (sdec_cw32 _ S2).
+    rewrite (cases_tree (k_pkg k) (k_group k) (k_nodes k) (k_total k) (rev (j_nodes st))).
+    - rewrite R3, R5. reflexivity.
+    - rewrite R4. exact R7.
+    - exact He.
+    - apply Forall_rev. exact S3.
+  Qed.
+  Corollary group_file_model k st total timestr :
+    state_rel txt false k st total -> state_small st -> txt timestr = L_time_string ->
+    k_gexec k = 0 -> Forall (fun c => c_exec c = 0) (k_nodes k) ->
+    group_file txt te k timestr = write_group Esc (j_pkg st) st.
+  Proof. intros. unfold group_file, write_group. rewrite (suite_tree k st total timestr); auto. Qed.
+
+  (* ---------------------------------------------------------------- the newest node *)
+  Lemma sum_checks_app a b : sum_checks (a ++ b) = (sum_checks a + sum_checks b)%N.
+  Proof. induction a as [|n a IH]; cbn [app sum_checks fold_right]; [reflexivity|]. fold (sum_checks (a ++ b)) (sum_checks a). lia. Qed.
+  Lemma sum_checks_rev l : sum_checks (rev l) = sum_checks l.
+  Proof.
+    induction l as [|n l IH]; [reflexivity|]. cbn [rev]. rewrite sum_checks_app, IH. cbn [sum_checks fold_right]. fold (sum_checks l). lia.
+  Qed.
+
+  Lemma state_rel_newest o k st total cs cn : state_rel txt o k st total -> k_nodes k = cs ++ [cn] ->
+    exists n ns', j_nodes st = n :: ns' /\ nodes_rel txt total cs (rev ns') /\ node_rel txt cn n /\
+                  (if o then c_cc cn = 0 /\ n_checks n = 0%N else c_cc cn = last_cc total cs + Z.of_N (n_checks n)).
+  Proof.
+    intros [_ [_ [_ [_ [_ [_ R]]]]]] Hk. destruct o.
+    - destruct R as [c [n [cs' [ns' [E1 [E2 [R1 [R2 [R3 R4]]]]]]]]]. rewrite Hk in E1. apply app_inj_tail in E1. destruct E1 as [-> ->].
+      exists n, ns'. split; [exact E2|]. split; [exact R1|]. split; [exact R2|]. split; [exact R3 | exact R4].
+    - rewrite Hk in R. apply nodes_rel_snoc_inv in R. destruct R as [ns' [n [E [R1 [R2 R3]]]]].
+      exists n, (rev ns'). rewrite rev_involutive. split; [|split; [exact R1 | split; [exact R2 | exact R3]]].
+      rewrite <- (rev_involutive (j_nodes st)), E, rev_unit. reflexivity.
+  Qed.
+
+  (* rebuilding the relation after the newest node changed *)
+  Lemma state_rel_build (o : bool) total cs ns' k' st' cn' n' :
+    nodes_rel txt total cs (rev ns') -> k_nodes k' = cs ++ [cn'] -> j_nodes st' = n' :: ns' -> node_rel txt cn' n' ->
+    (if o then c_cc cn' = 0 /\ n_checks n' = 0%N else c_cc cn' = last_cc total cs + Z.of_N (n_checks n')) ->
+    k_tc k' = Z.of_N (j_testCount st') -> k_fc k' = Z.of_N (j_failureCount st') -> txt (k_group k') = j_group st' ->
+    k_total k' = total -> txt (k_pkg k') = j_pkg st' -> txt (k_out k') = j_stdout st' ->
+    state_rel txt o k' st' total.
+  Proof.
+    intros Hr Hk' Hs' Hn Hc A1 A2 A3 A4 A5 A6. repeat (split; [assumption|]). destruct o.
+    - exists cn', n', cs, ns'. destruct Hc as [C1 C2]. split; [exact Hk'|]. split; [exact Hs'|]. split; [exact Hr|].
+      split; [exact Hn|]. split; [exact C1 | exact C2].
+    - rewrite Hk', Hs'. cbn [rev]. apply nodes_rel_app; [exact Hr|]. cbn [nodes_rel]. split; [exact Hn|]. split; [exact Hc | exact I].
+  Qed.
+
+  (* ---------------------------------------------------------------- printCurrentTestStarted = junit_step (ETestStart t) *)
+  Definition shell_rel (sh : cshell) (t : test) : Prop :=
+    txt (sh_group sh) = t_group t /\ txt (sh_name sh) = t_name t /\ txt (sh_file sh) = t_file t /\ sh_line sh = Z.of_N (t_line t).
+
+  (* In the theorems below the representation hypothesis junit_at_o is given unpacked (its witness k is named) so that the separation
+     of the argument blocks from the blocks of the structure -- including the blocks of the kept failures -- can be stated. *)
+  Theorem test_started_model fuel0 t0 times willruns timestr h ob ib bs k st total tb sh t evs nx :
+    cjunit_at h ob ib bs k -> state_rel txt false k st total ->
+    hblock h tb = shell_cells sh -> ~ In tb (jblocks ob ib bs (k_nodes k)) -> shell_rel sh t ->
+    Z.of_N (j_testCount st) + 1 < 2 ^ 64 ->
+    exists h', src_junit_printCurrentTestStarted fuel0 h evs nx (t0 :: times) (b2z (negb (t_ignored t)) :: willruns) timestr
+                 (HPtr ob 0) (HPtr tb 0) = FOk (tt, h', evs ++ [JNew (HPtr (length h) 0)], nx, times, willruns, timestr) /\
+      junit_at_o txt true h' ob ib (bs ++ [length h]) (junit_step Esc st (ETestStart t)) total /\
+      hload_int h' (HPtr ib 3) = Some t0 /\ length h' = S (length h) /\
+      (forall b, (b < length h)%nat -> ~ In b (jblocks ob ib bs (k_nodes k)) -> hblock h' b = hblock h b).
+  Proof.
+    intros Hcj Hr Htb Hnin [G1 [G2 [G3 G4]]] Htc.
+    destruct (fpost_tuple _ _ _ _ _ _ _ (started_m fuel0 t0 times (b2z (negb (t_ignored t))) willruns timestr h ob ib bs k tb sh evs nx
+                Hcj Htb Hnin)) as [h' [E [Hcj' [Ll Fr]]]].
+    exists h'. split; [exact E|]. split; [|split; [|split; [exact Ll | exact Fr]]].
+    - eexists. split; [exact Hcj'|]. destruct Hr as [R1 [R2 [R3 [R4 [R5 [R6 R7]]]]]]. unfold state_rel.
+      cbn [k_with k_tc k_fc k_group k_total k_pkg k_out k_nodes junit_step j_testCount j_failureCount j_group j_stdout j_pkg j_nodes].
+      split; [rewrite R1, cw_u_small by lia; lia|]. split; [exact R2|]. split; [exact G1|]. split; [exact R4|]. split; [exact R5|].
+      split; [exact R6|]. eexists _, _, (k_nodes k), (j_nodes st). split; [reflexivity|]. split; [reflexivity|]. split; [exact R7|].
+      split; [|split; reflexivity]. unfold node_rel, started_node. cbn [c_name c_file c_line c_ign c_fail n_name n_file n_line n_ignored n_failure fail_rel].
+      repeat split; try assumption. destruct (t_ignored t); reflexivity.
+    - destruct Hcj' as [_ [hd [Hib _]]]. unfold hload_int, hload. cbn [Z.leb Z.compare]. rewrite Hib. reflexivity.
+  Qed.
+
+  (* ---------------------------------------------------------------- printCurrentTestEnded = junit_step (ETestEnd c) *)
+  (* the check count of the result is cumulative: what had been counted when the group started (total), the checks of the tests of
+     the group that have ended, the checks c of this test *)
+  Theorem test_ended_model fuel0 times willruns timestr o h ob ib bs k st total rb r c evs nx :
+    cjunit_at h ob ib bs k -> state_rel txt o k st total -> j_nodes st <> [] ->
+    hblock h rb = tr_cells r -> ~ In rb (jblocks ob ib bs (k_nodes k)) ->
+    tr_checks r = total + Z.of_N (sum_checks (tl (j_nodes st))) + Z.of_N c ->
+    exists h', src_junit_printCurrentTestEnded fuel0 h evs nx times willruns timestr (HPtr ob 0) (HPtr rb 0) =
+               FOk (tt, h', evs, nx, times, willruns, timestr) /\
+      junit_at txt h' ob ib bs (junit_step Esc st (ETestEnd c)) total /\ length h' = length h /\
+      (forall b, ~ In b (jblocks ob ib bs (k_nodes k)) -> hblock h' b = hblock h b).
+  Proof.
+    intros Hcj Hr Hne Hrb Hnin Hcc.
+    destruct (snoc_case (k_nodes k)) as [Hk|[cs [cn Hk]]].
+    { exfalso. destruct Hr as [_ [_ [_ [_ [_ [_ R]]]]]]. rewrite Hk in R. destruct o.
+      - destruct R as [? [? [cs' [? [E _]]]]]. destruct cs'; discriminate E.
+      - destruct (rev (j_nodes st)) eqn:Er; [|contradiction R]. apply Hne. rewrite <- (rev_involutive (j_nodes st)), Er. reflexivity. }
+    destruct (fpost_tuple _ _ _ _ _ _ _ (ended_m fuel0 times willruns timestr h ob ib bs k cs cn rb r evs nx Hcj Hk Hrb Hnin))
+      as [h' [E [Hcj' [Ll Fr]]]].
+    exists h'. split; [exact E|]. split; [|split; [exact Ll | exact Fr]].
+    destruct (state_rel_newest o k st total cs cn Hr Hk) as [n [ns' [Hs [Hns [Hn Ho]]]]].
+    eexists. split; [exact Hcj'|]. destruct Hr as [R1 [R2 [R3 [R4 [R5 [R6 R7]]]]]].
+    cbn [junit_step]. rewrite Hs.
+    apply (state_rel_build false total cs ns' _ _ (c_with cn (tr_test_ms r) (c_fail cn) (tr_checks r))
+             {| n_name := n_name n; n_file := n_file n; n_line := n_line n; n_ignored := n_ignored n; n_failure := n_failure n;
+                n_checks := c |}); try assumption; try reflexivity.
+    cbn [c_with c_cc n_checks]. rewrite Hcc, Hs. cbn [tl]. rewrite (last_cc_sum txt cs total (rev ns') Hns), sum_checks_rev. reflexivity.
+  Qed.
+
+  Lemma state_rel_nonempty o k st total n r : state_rel txt o k st total -> j_nodes st = n :: r -> exists cs cn, k_nodes k = cs ++ [cn].
+  Proof.
+    intros Hr Hs. destruct (snoc_case (k_nodes k)) as [Hk|[cs [cn Hk]]]; [|exists cs, cn; exact Hk].
+    exfalso. destruct Hr as [_ [_ [_ [_ [_ [_ R]]]]]]. rewrite Hk in R. destruct o.
+    - destruct R as [? [? [cs' [? [E _]]]]]. destruct cs'; discriminate E.
+    - rewrite Hs in R. cbn [rev] in R. destruct (rev r); cbn in R; contradiction R.
+  Qed.
+  Lemma state_rel_length o k st total : state_rel txt o k st total -> length (k_nodes k) = length (j_nodes st).
+  Proof.
+    intros [_ [_ [_ [_ [_ [_ R]]]]]]. destruct o.
+    - destruct R as [c [n [cs' [ns' [E1 [E2 [R1 _]]]]]]]. rewrite E1, E2, app_length. apply nodes_rel_length in R1.
+      rewrite R1, rev_length. cbn [length]. lia.
+    - apply nodes_rel_length in R. rewrite R, rev_length. reflexivity.
+  Qed.
+
+  (* ---------------------------------------------------------------- printFailure = junit_step (EFailure ...) *)
+  Theorem failure_first_model fuel0 times willruns timestr o h ob ib bs k st total fb0 f t file line msg n r evs nx :
+    cjunit_at h ob ib bs k -> state_rel txt o k st total -> j_nodes st = n :: r -> n_failure n = None ->
+    hblock h fb0 = fail_cells f -> ~ In fb0 (jblocks ob ib bs (k_nodes k)) ->
+    txt (cf_file f) = file -> cf_line f = Z.of_N line -> txt (cf_msg f) = msg ->
+    Z.of_N (j_failureCount st) + 1 < 2 ^ 64 ->
+    exists h', src_junit_printFailure fuel0 h evs nx times willruns timestr (HPtr ob 0) (HPtr fb0 0) =
+               FOk (tt, h', evs ++ [JNew (HPtr (length h) 0)], nx, times, willruns, timestr) /\
+      junit_at_o txt o h' ob ib bs (junit_step Esc st (EFailure t file line msg)) total /\
+      length h' = S (length h) /\ hblock h' (length h) = fail_cells f /\
+      (forall b, (b < length h)%nat -> ~ In b (jblocks ob ib bs (k_nodes k)) -> hblock h' b = hblock h b).
+  Proof.
+    intros Hcj Hr Hs Hnf Hfb Hnin F1 F2 F3 Hfc.
+    destruct (state_rel_nonempty o k st total n r Hr Hs) as [cs [cn Hk]].
+    destruct (state_rel_newest o k st total cs cn Hr Hk) as [n0 [ns' [Hs' [Hns [Hn Ho]]]]].
+    rewrite Hs in Hs'. injection Hs' as <- <-.
+    assert (Hcf : c_fail cn = None).
+    { destruct Hn as [_ [_ [_ [_ Hfr]]]]. rewrite Hnf in Hfr. destruct (c_fail cn) as [[? ?]|]; [contradiction Hfr | reflexivity]. }
+    destruct (fpost_tuple _ _ _ _ _ _ _ (failure_first_m fuel0 times willruns timestr h ob ib bs k cs cn fb0 f evs nx Hcj Hk Hcf Hfb Hnin))
+      as [h' [E [Hcj' [Ll [Hnew Fr]]]]].
+    exists h'. split; [exact E|]. split; [|split; [exact Ll | split; [exact Hnew | exact Fr]]].
+    eexists. split; [exact Hcj'|]. destruct Hr as [R1 [R2 [R3 [R4 [R5 [R6 R7]]]]]]. cbn [junit_step]. rewrite Hs, Hnf.
+    apply (state_rel_build o total cs r _ _ (c_with cn (c_exec cn) (Some (length h, f)) (c_cc cn))
+             {| n_name := n_name n; n_file := n_file n; n_line := n_line n; n_ignored := n_ignored n; n_failure := Some (file, line, msg);
+                n_checks := n_checks n |}); try assumption; try reflexivity.
+    - destruct Hn as [N1 [N2 [N3 [N4 N5]]]]. unfold node_rel. cbn [c_with c_name c_file c_line c_ign c_fail n_name n_file n_line n_ignored n_failure fail_rel].
+      repeat split; assumption.
+    - cbn [k_with k_fc j_failureCount]. rewrite R2, cw_u_small by lia. lia.
+  Qed.
+  Theorem failure_second_model fuel0 times willruns timestr o h ob ib bs k st total fb0 t file line msg n r x evs nx :
+    cjunit_at h ob ib bs k -> state_rel txt o k st total -> j_nodes st = n :: r -> n_failure n = Some x ->
+    src_junit_printFailure fuel0 h evs nx times willruns timestr (HPtr ob 0) (HPtr fb0 0) = FOk (tt, h, evs, nx, times, willruns, timestr) /\
+    junit_step Esc st (EFailure t file line msg) = st.
+  Proof.
+    intros Hcj Hr Hs Hnf. split; [|cbn [junit_step]; rewrite Hs, Hnf; reflexivity].
+    destruct (state_rel_nonempty o k st total n r Hr Hs) as [cs [cn Hk]].
+    destruct (state_rel_newest o k st total cs cn Hr Hk) as [n0 [ns' [Hs' [Hns [Hn Ho]]]]].
+    rewrite Hs in Hs'. injection Hs' as <- <-.
+    destruct Hn as [_ [_ [_ [_ Hfr]]]]. rewrite Hnf in Hfr. destruct (c_fail cn) as [[fb f]|] eqn:Hcf; [|contradiction Hfr].
+    exact (failure_second fuel0 times willruns timestr h ob ib bs k cs cn fb f fb0 evs nx Hcj Hk Hcf).
+  Qed.
+
+  (* ---------------------------------------------------------------- resetTestGroupResult *)
+  Definition reset_state (st : jstate) : jstate :=
+    {| j_nodes := []; j_testCount := 0; j_failureCount := 0; j_group := []; j_stdout := j_stdout st; j_files := j_files st;
+       j_pkg := j_pkg st; j_names := j_names st |}.
+  Theorem reset_model fuel0 times willruns timestr o h ob ib bs k st total evs nx :
+    cjunit_at h ob ib bs k -> state_rel txt o k st total -> (length (j_nodes st) < fuel0)%nat ->
+    exists h', src_junit_resetTestGroupResult fuel0 h evs nx times willruns timestr (HPtr ob 0) =
+               FOk (tt, h', evs ++ reset_events bs (k_nodes k), nx, times, willruns, timestr) /\
+      junit_at txt h' ob ib [] (reset_state st) total /\ length h' = length h /\ (forall b, b <> ib -> hblock h' b = hblock h b).
+  Proof.
+    intros Hcj Hr Hf. rewrite <- (state_rel_length o k st total Hr) in Hf.
+    destruct (fpost_tuple _ _ _ _ _ _ _ (reset_m fuel0 times willruns timestr h ob ib bs k evs nx Hcj Hf)) as [h' [E [Hcj' [Ll Fr]]]].
+    exists h'. split; [exact E|]. split; [|split; [exact Ll | exact Fr]].
+    eexists. split; [exact Hcj'|]. destruct Hr as [R1 [R2 [R3 [R4 [R5 [R6 R7]]]]]]. unfold state_rel, reset_state.
+    cbn [k_with k_tc k_fc k_group k_total k_pkg k_out k_nodes j_testCount j_failureCount j_group j_stdout j_pkg j_nodes rev nodes_rel].
+    repeat split; assumption.
+  Qed.
+  (* what is deleted: every node and every kept failure (a node without failure contributes JDelete HNull, the `delete` of a null pointer) *)
+  Definition deleted (e : hev) : list nat := match e with JDelete (HPtr b _) => [b] | _ => [] end.
+  Lemma reset_events_deleted : forall bs cs,
+    flat_map deleted (reset_events bs cs) = flat_map (fun bc => fblock (snd bc) ++ [fst bc]) (combine bs cs).
+  Proof.
+    unfold reset_events. induction bs as [|b bs IH]; intros [|c cs]; try reflexivity.
+    cbn [combine flat_map app fst snd]. rewrite IH. unfold fblock, deleted, fptr. destruct (c_fail c) as [[fb f]|]; reflexivity.
+  Qed.
+
+  (* ---------------------------------------------------------------- writeTestGroupToFile = the model's write_group *)
+  Theorem write_group_model fuel0 times willruns timestr h ob ib bs k st total evs nx :
+    cjunit_at h ob ib bs k -> state_rel txt false k st total -> state_small st -> txt timestr = L_time_string ->
+    k_gexec k = 0 -> Forall (fun c => c_exec c = 0) (k_nodes k) -> (length (j_nodes st) < fuel0)%nat ->
+    exists h' mid nx',
+      src_junit_writeTestGroupToFile te fuel0 h evs nx times willruns timestr (HPtr ob 0) =
+      FOk (tt, h', evs ++ [JOpen (k_group k)] ++ mid ++ [JClose], nx', times, willruns, timestr) /\
+      txt (k_group k) = j_group st /\
+      files_of txt (evs ++ [JOpen (k_group k)] ++ mid ++ [JClose]) = files_of txt evs ++ [(k_group k, write_group Esc (j_pkg st) st)] /\
+      hload_int h' (HPtr ib 2) = Some (total + Z.of_N (sum_checks (j_nodes st))) /\
+      length h' = length h /\ (forall b, b <> ib -> hblock h' b = hblock h b).
+  Proof.
+    intros Hcj Hr Hsm Hts Hg He Hf. rewrite <- (state_rel_length false k st total Hr) in Hf.
+    destruct (write_group_to_file te fuel0 times willruns timestr h ob ib bs k evs nx Hcj Hf) as [h' [E [Hcj' [Ll Fr]]]].
+    exists h', (ev_header ++ ev_summary k timestr nx ++ ev_props ++ ev_cases te (k_pkg k) (k_group k) (k_total k) (nx + 1) (k_nodes k) ++
+                ev_ending (k_out k)), (cases_nx (nx + 1) (k_nodes k)).
+    assert (EE : [JOpen (k_group k)] ++ (ev_header ++ ev_summary k timestr nx ++ ev_props ++
+                   ev_cases te (k_pkg k) (k_group k) (k_total k) (nx + 1) (k_nodes k) ++ ev_ending (k_out k)) ++ [JClose] =
+                 ev_group te k timestr nx).
+    { unfold ev_group. rewrite <- !app_assoc. reflexivity. }
+    rewrite EE. split; [exact E|]. split; [apply Hr|]. split; [|split; [|split; [exact Ll | exact Fr]]].
+    - rewrite files_of_group, (group_file_model k st total timestr Hr Hsm Hts Hg He). reflexivity.
+    - destruct Hcj' as [_ [hd [Hib _]]]. unfold hload_int, hload. cbn [Z.leb Z.compare]. rewrite Hib.
+      cbn [impl_cells k_with k_total nth_error Z.to_nat Pos.to_nat Pos.iter_op Nat.add]. destruct Hr as [_ [_ [_ [R4 [_ [_ R7]]]]]].
+      rewrite R4, (last_cc_sum txt _ _ _ R7), sum_checks_rev. reflexivity.
+  Qed.
+
+  (* ---------------------------------------------------------------- printCurrentGroupEnded = junit_step EGroupEnd *)
+  (* the model's EGroupEnd also records the NAME of the file through createFileName, which is not translated: the event JOpen carries
+     the id of the group text the name is made from *)
+  Theorem group_ended_model fuel0 times willruns timestr h ob ib bs k st total rb r evs nx :
+    cjunit_at h ob ib bs k -> state_rel txt false k st total -> state_small st -> txt timestr = L_time_string ->
+    Forall (fun c => c_exec c = 0) (k_nodes k) -> hblock h rb = tr_cells r -> rb <> ib -> tr_group_ms r = 0 ->
+    (length (j_nodes st) < fuel0)%nat ->
+    exists h' rest nx' content,
+      src_junit_printCurrentGroupEnded te fuel0 h evs nx times willruns timestr (HPtr ob 0) (HPtr rb 0) =
+      FOk (tt, h', evs ++ JOpen (k_group k) :: rest, nx', times, willruns, timestr) /\
+      txt (k_group k) = j_group st /\
+      j_files (junit_step Esc st EGroupEnd) = (createFileName (j_pkg st) (j_group st), content) :: j_files st /\
+      files_of txt (evs ++ JOpen (k_group k) :: rest) = files_of txt evs ++ [(k_group k, content)] /\
+      junit_at txt h' ob ib [] (junit_step Esc st EGroupEnd) (total + Z.of_N (sum_checks (j_nodes st))) /\
+      length h' = length h /\ (forall b, b <> ib -> hblock h' b = hblock h b).
+  Proof.
+    intros Hcj Hr Hsm Hts He Hrb Nr Hgx Hf. pose proof Hr as [R1 [R2 [R3 [R4 [R5 [R6 R7]]]]]].
+    rewrite <- (state_rel_length false k st total Hr) in Hf.
+    destruct (group_ended te fuel0 times willruns timestr h ob ib bs k rb r evs nx Hcj Hf Hrb Nr) as [h' [E [Hcj' [Ll Fr]]]].
+    assert (Hr1 : state_rel txt false (k_gx k (tr_group_ms r)) st total).
+    { unfold state_rel, k_gx. cbn [k_with k_tc k_fc k_group k_total k_pkg k_out k_nodes]. repeat split; assumption. }
+    exists h', (tl (ev_group te (k_gx k (tr_group_ms r)) timestr nx) ++ reset_events bs (k_nodes k)), (cases_nx (nx + 1) (k_nodes k)),
+      (write_group Esc (j_pkg st) st).
+    assert (EE : JOpen (k_group k) :: tl (ev_group te (k_gx k (tr_group_ms r)) timestr nx) ++ reset_events bs (k_nodes k) =
+                 ev_group te (k_gx k (tr_group_ms r)) timestr nx ++ reset_events bs (k_nodes k)) by reflexivity.
+    rewrite EE. split; [exact E|]. split; [exact R3|]. split; [reflexivity|]. split; [|split; [|split; [exact Ll | exact Fr]]].
+    - rewrite files_of_group_reset. rewrite (group_file_model _ st total timestr Hr1 Hsm Hts); [reflexivity | exact Hgx | exact He].
+    - eexists. split; [exact Hcj'|]. unfold state_rel.
+      cbn [k_with k_tc k_fc k_group k_total k_pkg k_out k_nodes junit_step j_testCount j_failureCount j_group j_stdout j_pkg j_nodes rev
+             nodes_rel].
+      repeat split; try assumption. rewrite R4, (last_cc_sum txt _ _ _ R7), sum_checks_rev. reflexivity.
+  Qed.
+End Model.
+
+(* ================================================================== Part 4: examples *)
+Module Ex.
+  Definition S (s : String.string) : bytes := B s.
+  (* the texts: 0 empty, 1 the group, 2 / 4 test names, 3 the file, 5 a message, 6 the time string, 8 the captured output *)
+  Definition txt (id : Z) : bytes :=
+    match id with
+    | 1 => S "G<1>"%string | 2 => S "first"%string | 3 => S "a.cpp"%string | 4 => S "second"%string | 5 => S "x & y"%string
+    | 6 => L_time_string | 8 => S "out"%string | _ => []
+    end.
+  Definition te (id : Z) : Z := b2z (match txt id with [] => true | _ => false end).
+  Definition shell (name line : Z) : list val := [VInt 1; VInt name; VInt 3; VInt line; VPtr HNull; VInt 0; VInt 0].
+  Definition result (checks : Z) : list val :=
+    [VInt 0; VInt 0; VInt 0; VInt checks; VInt 0; VInt 0; VInt 0; VInt 0; VInt 0; VInt 0; VInt 0; VInt 0; VInt 0].
+  (* 0: the output object, 1: the impl (stdOutput_ = text 8), 2 / 3: two tests, 4: a failure at a.cpp:12, 5 / 6: the TestResult after
+     the first test (3 checks) and after the second (ignored: still 3) *)
+  Definition h0 (total : Z) : heap :=
+    [[VPtr (HPtr 1 0)];
+     [VInt 0; VInt 0; VInt total; VInt 0; VInt 0; VInt 0; VPtr HNull; VPtr HNull; VInt 0; VInt 0; VInt 8];
+     shell 2 10; shell 4 20;
+     [VInt 2; VInt 2; VInt 3; VInt 12; VInt 3; VInt 10; VInt 5];
+     result (total + 3); result (total + 3)].
+  Definition R := fres (unit * heap * list hev * Z * list Z * list Z * Z).
+  Definition bind (r : R) (f : heap -> list hev -> Z -> list Z -> list Z -> R) : R :=
+    match r with FOk (_, h, e, nx, tm, wr, _) => f h e nx tm wr | FOob => FOob | FNoFuel => FNoFuel end.
+  Definition this_ := HPtr 0 0.
+  (* first test: fails twice, 3 checks; second test: ignored; then the group ends *)
+  Definition run (total : Z) : R :=
+    bind (src_junit_printCurrentTestStarted 9 (h0 total) [] 100 [0; 0] [1; 0] 6 this_ (HPtr 2 0)) (fun h e nx tm wr =>
+    bind (src_junit_printFailure 9 h e nx tm wr 6 this_ (HPtr 4 0)) (fun h e nx tm wr =>
+    bind (src_junit_printFailure 9 h e nx tm wr 6 this_ (HPtr 4 0)) (fun h e nx tm wr =>
+    bind (src_junit_printCurrentTestEnded 9 h e nx tm wr 6 this_ (HPtr 5 0)) (fun h e nx tm wr =>
+    bind (src_junit_printCurrentTestStarted 9 h e nx tm wr 6 this_ (HPtr 3 0)) (fun h e nx tm wr =>
+    bind (src_junit_printCurrentTestEnded 9 h e nx tm wr 6 this_ (HPtr 6 0)) (fun h e nx tm wr =>
+    src_junit_printCurrentGroupEnded te 9 h e nx tm wr 6 this_ (HPtr 6 0))))))).
+  Definition events (r : R) : list hev := match r with FOk (_, _, e, _, _, _, _) => e | _ => [] end.
+  Definition final_heap (r : R) : heap := match r with FOk (_, h, _, _, _, _, _) => h | _ => [] end.
+
+  (* the same run in the model *)
+  Definition t1 : test := {| t_group := txt 1; t_name := txt 2; t_file := txt 3; t_line := 10; t_ignored := false; t_body := [] |}.
+  Definition t2 : test := {| t_group := txt 1; t_name := txt 4; t_file := txt 3; t_line := 20; t_ignored := true; t_body := [] |}.
+  Definition st0 : jstate :=
+    {| j_nodes := []; j_testCount := 0; j_failureCount := 0; j_group := []; j_stdout := txt 8; j_files := []; j_pkg := []; j_names := [] |}.
+  Definition st_end : jstate :=
+    fold_left (junit_step Esc)
+      [ETestStart t1; EFailure t1 (txt 3) 12 (txt 5); EFailure t1 (txt 3) 13 (txt 5); ETestEnd 3; ETestStart t2; ETestEnd 0] st0.
+
+  Definition lines (l : list String.string) : bytes := flat_map (fun x => B (NL x)) l.
+  Definition expected_file : bytes :=
+    lines ["<?xml version=""1.0"" encoding=""UTF-8"" ?>";
+           "<testsuite errors=""0"" failures=""1"" hostname=""localhost"" name=""G&lt;1&gt;"" tests=""2"" time=""0.000"" timestamp=""2000-01-01T00:00:00"">";
+           "<properties>"; "</properties>";
+           "<testcase classname=""G&lt;1&gt;"" name=""first"" assertions=""3"" time=""0.000"" file=""a.cpp"" line=""10"">";
+           "<failure message=""a.cpp:12: x &amp; y"" type=""AssertionFailedError"">"; "</failure>"; "</testcase>";
+           "<testcase classname=""G&lt;1&gt;"" name=""second"" assertions=""0"" time=""0.000"" file=""a.cpp"" line=""20"">";
+           "<skipped />"; "</testcase>";
+           "<system-out>out</system-out>"; "<system-err></system-err>"; "</testsuite>"]%string.
+
+  (* a group that ends while its only test is still open (never happens under TestRegistry::runAllTests), 5 checks counted before *)
+  Definition run_open : R :=
+    bind (src_junit_printCurrentTestStarted 9 (h0 5) [] 100 [0] [1] 6 this_ (HPtr 2 0)) (fun h e nx tm wr =>
+    src_junit_printCurrentGroupEnded te 9 h e nx tm wr 6 this_ (HPtr 6 0)).
+  Definition st_open : jstate := junit_step Esc st0 (ETestStart t1).
+  (* a test that took 1234 ms in a group that took 61005 ms *)
+  Definition result_ms (checks ms gms : Z) : list val :=
+    [VInt 0; VInt 0; VInt 0; VInt checks; VInt 0; VInt 0; VInt 0; VInt 0; VInt 0; VInt 0; VInt ms; VInt 0; VInt gms].
+  Definition run_ms : R :=
+    bind (src_junit_printCurrentTestStarted 9 (h0 0 ++ [result_ms 3 1234 61005]) [] 100 [0] [1] 6 this_ (HPtr 2 0)) (fun h e nx tm wr =>
+    bind (src_junit_printCurrentTestEnded 9 h e nx tm wr 6 this_ (HPtr 7 0)) (fun h e nx tm wr =>
+    src_junit_printCurrentGroupEnded te 9 h e nx tm wr 6 this_ (HPtr 7 0))).
+End Ex.
+
+(* the initial heap represents a model state (non-vacuity of junit_at) *)
+Example ex_rep : junit_at Ex.txt (Ex.h0 0) 0 1 [] Ex.st0 0.
+Proof.
+  exists {| k_nodes := []; k_tc := 0; k_fc := 0; k_total := 0; k_start := 0; k_gexec := 0; k_group := 0; k_filev := VInt 0; k_pkg := 0;
+            k_out := 8 |}.
+  split.
+  - split; [reflexivity|]. exists HNull. split; [reflexivity|]. split; [reflexivity|]. split.
+    + repeat constructor; cbn; intuition discriminate.
+    + repeat constructor.
+  - repeat split.
+Qed.
+
+(* two tests, the first fails twice (only the first failure is kept: one JNew for it), the second is ignored; then the group ends:
+   the events, in order (JDelete HNull = `delete` of the null failure_ of the second node) *)
+Example ex_events :
+  Ex.events (Ex.run 0) =
+  [JNew (HPtr 7 0); JNew (HPtr 8 0); JNew (HPtr 9 0);
+   JOpen 1; JWrite (JLit s_xml);
+   JFormat 100 fmt_suite [JNum 1; JEnc 1; JNum 2; JNum 0; JNum 0; JEnc 6]; JWrite (JTxt 100);
+   JWrite (JLit (NL "<properties>"%string)); JWrite (JLit (NL "</properties>"%string));
+   JFormat 101 fmt_case [JEnc 0; JLit ""%string; JEnc 1; JEnc 2; JNum 3; JNum 0; JNum 0; JEnc 3; JNum 10]; JWrite (JTxt 101);
+   JFormat 102 fmt_fail [JEnc 3; JNum 12; JEnc 5]; JWrite (JTxt 102); JWrite (JLit (NL "</failure>"%string));
+   JWrite (JLit (NL "</testcase>"%string));
+   JFormat 103 fmt_case [JEnc 0; JLit ""%string; JEnc 1; JEnc 4; JNum 0; JNum 0; JNum 0; JEnc 3; JNum 20]; JWrite (JTxt 103);
+   JWrite (JLit (NL "<skipped />"%string)); JWrite (JLit (NL "</testcase>"%string));
+   JWrite (JLit "<system-out>"%string); JWrite (JEnc 8); JWrite (JLit (NL "</system-out>"%string));
+   JWrite (JLit (NL "<system-err></system-err>"%string)); JWrite (JLit (NL "</testsuite>"%string)); JClose;
+   JDelete (HPtr 8 0); JDelete (HPtr 7 0); JDelete HNull; JDelete (HPtr 9 0)].
+Proof. vm_compute. reflexivity. Qed.
+(* the file they make, and the model's *)
+Example ex_file : files_of Ex.txt (Ex.events (Ex.run 0)) = [(1, Ex.expected_file)].
+Proof. vm_compute. reflexivity. Qed.
+Example ex_model :
+  j_files (junit_step Esc Ex.st_end EGroupEnd) = [(Ex.S "cpputest_G_1_.xml"%string, Ex.expected_file)].
+Proof. vm_compute. reflexivity. Qed.
+(* afterwards: counters 0, group empty, head_ = tail_ = NULL -- and totalCheckCount_ = 3, not reset *)
+Example ex_final_impl :
+  hblock (Ex.final_heap (Ex.run 0)) 1 = [VInt 0; VInt 0; VInt 3; VInt 0; VInt 0; VInt 0; VPtr HNull; VPtr HNull; VInt 0; VInt 0; VInt 8].
+Proof. vm_compute. reflexivity. Qed.
+(* the same run when 5 checks had been counted before the group: the cumulative counts differ, the file does not *)
+Example ex_file_5 : files_of Ex.txt (Ex.events (Ex.run 5)) = [(1, Ex.expected_file)].
+Proof. vm_compute. reflexivity. Qed.
+
+(* COUNTEREXAMPLE (why junit_at_o true exists): a node that has been started and not ended has checkCount_ = 0; written in that state
+   after 5 checks were counted, the code prints (int)(0 - 5), the model 0.  Hence printCurrentTestStarted does not take the cumulative
+   reading junit_at to junit_at of the model's next state unless totalChecks = 0, and write_group_model needs the closed flavour. *)
+Example ce_open_node :
+  contains (match files_of Ex.txt (Ex.events Ex.run_open) with [(_, f)] => f | _ => [] end) (Ex.S "assertions=""-5"""%string) = true /\
+  contains (write_group Esc [] Ex.st_open) (Ex.S "assertions=""0"""%string) = true.
+Proof. vm_compute. split; reflexivity. Qed.
+(* times that are not 0 (the model prints 0.000): "%d.%03d" of ms / 1000 and ms % 1000 *)
+Example ex_times :
+  contains (match files_of Ex.txt (Ex.events Ex.run_ms) with [(_, f)] => f | _ => [] end)
+    (Ex.S "tests=""1"" time=""61.005"""%string) = true /\
+  contains (match files_of Ex.txt (Ex.events Ex.run_ms) with [(_, f)] => f | _ => [] end)
+    (Ex.S "assertions=""3"" time=""1.234"""%string) = true /\
+  time_render 61005 = Ex.S "61.005"%string /\ time_attr 1234 = Ex.S "1.234"%string.
+Proof. vm_compute. repeat split; reflexivity. Qed.
+
